@@ -244,14 +244,18 @@ impl<T: Send + 'static> ReadyPipeQueue<T> {
         }
       };
 
+      #[cfg(rzmq_verif)] crate::verif::rpq::schedule_point("rpq_pop_recv");
       match slot.rx.try_recv() {
         Ok(item) => {
+          #[cfg(rzmq_verif)] crate::verif::rpq::schedule_point("rpq_pop_decq");
           let prev = slot.queued_count.fetch_sub(1, Ordering::AcqRel);
+          #[cfg(rzmq_verif)] crate::verif::rpq::schedule_point("rpq_pop_decr");
           slot.reserved_count.fetch_sub(1, Ordering::AcqRel);
           debug_assert!(prev > 0);
           audit_slot(&slot, "pop");
 
           if prev > 1 {
+            #[cfg(rzmq_verif)] crate::verif::rpq::schedule_point("rpq_pop_rearm");
             cancel_guard!(guard, "ReadyPipeQueue::pop → ready_tx.send");
 
             // More committed messages remain — keep this pipe on the ready list.
@@ -283,6 +287,7 @@ impl<T: Send + 'static> ReadyPipeQueue<T> {
           return Ok((slot.pipe_id, item));
         }
         Err(TryRecvError::Empty) => {
+          #[cfg(rzmq_verif)] crate::verif::rpq::schedule_point("rpq_pop_stale");
           // Stale ready signal (deregistration or close race). queued_count is
           // authoritative; if the channel is empty the signal is invalid — discard.
           continue;
@@ -299,14 +304,18 @@ impl<T: Send + 'static> ReadyPipeQueue<T> {
         Err(_) => return None,
       };
 
+      #[cfg(rzmq_verif)] crate::verif::rpq::schedule_point("rpq_trypop_recv");
       match slot.rx.try_recv() {
         Ok(item) => {
+          #[cfg(rzmq_verif)] crate::verif::rpq::schedule_point("rpq_trypop_decq");
           let prev = slot.queued_count.fetch_sub(1, Ordering::AcqRel);
+          #[cfg(rzmq_verif)] crate::verif::rpq::schedule_point("rpq_trypop_decr");
           slot.reserved_count.fetch_sub(1, Ordering::AcqRel);
           debug_assert!(prev > 0);
           audit_slot(&slot, "try_pop");
 
           if prev > 1 {
+            #[cfg(rzmq_verif)] crate::verif::rpq::schedule_point("rpq_trypop_rearm");
             let _ = self.ready_tx.try_send(Arc::clone(&slot));
           }
 
@@ -371,12 +380,15 @@ impl<T: Send + 'static> ReadyPipeSender<T> {
     // Reservation increments reserved_count before any channel write.
     // If this future is dropped (tokio::select! picks another branch),
     // the guard's Drop rolls back reserved_count — no leak.
+    #[cfg(rzmq_verif)] crate::verif::rpq::schedule_point("rpq_send_reserve");
     let mut reservation = SendReservation::new(Arc::clone(&slot));
 
+    #[cfg(rzmq_verif)] crate::verif::rpq::schedule_point("rpq_send_write");
     match slot.tx.try_send(item) {
       Ok(()) => {}
       Err(TrySendError::Closed(_)) => return Err(ZmqError::ConnectionClosed),
       Err(TrySendError::Full(returned)) => {
+        #[cfg(rzmq_verif)] crate::verif::rpq::schedule_point("rpq_send_block");
         // Block here. If cancelled mid-await, Drop runs on the reservation.
         slot
           .tx
@@ -389,10 +401,12 @@ impl<T: Send + 'static> ReadyPipeSender<T> {
 
     // Message is committed to the channel. Seal the reservation so Drop
     // does not roll it back; the consumer's pop() will release it instead.
+    #[cfg(rzmq_verif)] crate::verif::rpq::schedule_point("rpq_send_count");
     let prev = slot.queued_count.fetch_add(1, Ordering::AcqRel);
     reservation.commit();
 
     if prev == 0 {
+      #[cfg(rzmq_verif)] crate::verif::rpq::schedule_point("rpq_send_arm");
       cancel_guard!(cd, "ReadyPipeSender::send → ready_tx.send");
       self
         .ready_tx
@@ -412,20 +426,25 @@ impl<T: Send + 'static> ReadyPipeSender<T> {
       None => return Err(TrySendError::Closed(item)),
     };
 
+    #[cfg(rzmq_verif)] crate::verif::rpq::schedule_point("rpq_trysend_reserve");
     let mut reservation = SendReservation::new(Arc::clone(&slot));
 
     // If this returns an error, the reservation is dropped (rolled back).
+    #[cfg(rzmq_verif)] crate::verif::rpq::schedule_point("rpq_trysend_write");
     slot.tx.try_send(item)?;
+    #[cfg(rzmq_verif)] crate::verif::rpq::schedule_point("rpq_trysend_count");
 
     let prev = slot.queued_count.fetch_add(1, Ordering::AcqRel);
     reservation.commit();
 
     if prev == 0 {
+      #[cfg(rzmq_verif)] crate::verif::rpq::schedule_point("rpq_trysend_arm");
       // 0→1 transition: ready queue capacity must be >= max registered
       // pipes so this should never spin more than one iteration.
       let mut spins = 0usize;
       while let Err(e) = self.ready_tx.try_send(Arc::clone(&slot)) {
         spins += 1;
+        #[cfg(rzmq_verif)] crate::verif::rpq::schedule_point("rpq_trysend_spin");
         log_rpq_spin_deadlock!(spins, "try_send spinning", e);
         std::thread::yield_now();
       }
@@ -454,6 +473,7 @@ impl<T: Send + 'static> ReadyPipeSender<T> {
     }
 
     // Bulk reservation upfront — one atomic instead of N.
+    #[cfg(rzmq_verif)] crate::verif::rpq::schedule_point("rpq_batch_reserve");
     slot.reserved_count.fetch_add(n, Ordering::AcqRel);
 
     let mut sent_batches = 0usize;
@@ -462,8 +482,10 @@ impl<T: Send + 'static> ReadyPipeSender<T> {
 
     while let Some(item) = items.pop_front() {
       let weight = get_weight(&item);
+      #[cfg(rzmq_verif)] crate::verif::rpq::schedule_point("rpq_batch_write");
       match slot.tx.try_send(item) {
         Ok(()) => {
+          #[cfg(rzmq_verif)] crate::verif::rpq::schedule_point("rpq_batch_count");
           sent_batches += 1;
           total_weight += weight;
           // Inline increment — consumer may pop the item before the batch ends;
@@ -487,6 +509,7 @@ impl<T: Send + 'static> ReadyPipeSender<T> {
 
     // Roll back any reservations for items we couldn't push.
     if sent_batches < n {
+      #[cfg(rzmq_verif)] crate::verif::rpq::schedule_point("rpq_batch_rollback");
       slot
         .reserved_count
         .fetch_sub(n - sent_batches, Ordering::AcqRel);
@@ -495,9 +518,11 @@ impl<T: Send + 'static> ReadyPipeSender<T> {
     // Guaranteed wakeup on 0→1 transition. ready_capacity >= max registered
     // pipes, so the spin almost never executes more than one iteration.
     if had_zero_transition {
+      #[cfg(rzmq_verif)] crate::verif::rpq::schedule_point("rpq_batch_arm");
       let mut spins = 0usize;
       while let Err(e) = self.ready_tx.try_send(Arc::clone(&slot)) {
         spins += 1;
+        #[cfg(rzmq_verif)] crate::verif::rpq::schedule_point("rpq_batch_spin");
         log_rpq_spin_deadlock!(spins, "try_send_batch spinning on ready_tx", e);
         std::thread::yield_now();
       }
